@@ -16,7 +16,7 @@ func init() {
 	core.Register(&core.Prop{
 		ID:    "C13",
 		Level: "exploration",
-		Rule: "PRNG base templates (objects, plain tags, block/clause/end tags, loops, capture, comment/raw, whitespace-rich literal text of spaces, tabs, LF, CRLF and non-whitespace) are tokenised by the frozen reference tokenizer; up to 10 hyphen slots (left/right side of a tag or object outside raw/comment bodies) are chosen and ALL 2^k subsets rendered. Weak law (every subset): output with every whitespace character deleted equals that of the hyphen-free template. Strong law (subsets in which every hyphen faces literal text or the template boundary): output equals the output of the hyphen-free template with the adjacent whitespace run deleted from the neighbouring text token. Non-trivial = a non-empty subset whose output differs from the hyphen-free output; distinct = distinct (template, subset).",
+		Rule: "PRNG base templates (objects, plain tags incl. application-defined tags without arguments, block/clause/end tags, loops, capture, comment/raw, whitespace-rich literal text of spaces, tabs, LF, CRLF and non-whitespace) are tokenised by the frozen reference tokenizer; up to 10 hyphen slots (left/right side of a tag or object outside raw/comment bodies) are chosen and ALL 2^k subsets rendered. Weak law (every subset): output with every whitespace character deleted equals that of the hyphen-free template. Strong law (subsets in which every hyphen faces literal text or the template boundary): output equals the output of the hyphen-free template with the adjacent whitespace run deleted from the neighbouring text token. Non-trivial = a non-empty subset whose output differs from the hyphen-free output; distinct = distinct (template, subset).",
 		Exhaustive: func(string) bool { return true },
 		Assumptions: []string{
 			"templates only print captured/assigned text (trimmed whitespace inside a capture never reaches a filter or comparison), otherwise the weak law would not follow from the statement",
@@ -47,6 +47,7 @@ type c13slot struct {
 
 func runC13(c *core.Ctx) {
 	e := liquid.NewEngine()
+	RegisterCustom(e) // {% xecho %} without arguments: a hyphen inside such a tag must stay a trim marker
 	n := c.Pick(700, 14000)
 	for i := 0; i < n; i++ {
 		if !c.Mine(i) {
@@ -55,12 +56,15 @@ func runC13(c *core.Ctx) {
 		r := c.Rand(i)
 		env := gen.StdEnv(r)
 		f := gen.Features{Loops: true, Tablerow: i%7 == 0, Cycle: true, Capture: true, Assign: true, Case: true, RawComment: true, Filters: true,
-			NoVarReuse: true, WSText: true, MaxDepth: 3, MaxNodes: 9}
+			NoVarReuse: true, WSText: true, MaxDepth: 3, MaxNodes: 9, Probe: "xecho"}
 		g := gen.NewG(r, f, env)
 		prog := g.Program()
 		prog = append(prog, gen.Text{S: " "}, gen.Out{E: gen.Var{Name: "c1"}}, gen.Text{S: "\n"}, gen.Out{E: gen.Var{Name: "c2"}}, gen.Text{S: "\tend \n"})
 		if r.Bool() {
 			prog = append([]gen.Node{gen.Text{S: " \n start\t"}}, prog...)
+		}
+		if r.P(1, 3) {
+			prog = append(prog, gen.Text{S: " x "}, gen.PlainTag{Name: "xecho"}, gen.Text{S: " \n"}, gen.PlainTag{Name: "xinfo"}, gen.Text{S: " y"})
 		}
 		base := gen.DefaultStyle.Source(prog)
 		toks := ref.Tokens(base, ref.DefaultDelims)
